@@ -697,7 +697,11 @@ fn run(a: &vhcore::Args) -> i32 {
     let work = vhcore::work_dir("C15");
     let ctx = setup_ctx(work);
     let thorough = a.tier == vhcore::Tier::Thorough;
-    let k: u32 = a.tier.pick(4, 16);
+    // debugging aids (the run is then reported as not exhaustive): VH_C15_K = number of forced seeds,
+    // VH_C15_E2E_TRY / VH_C15_E2E_N = e2e candidates tried / selected in the thorough tier
+    let env_num = |n: &str| std::env::var(n).ok().and_then(|s| s.parse::<usize>().ok());
+    let k: u32 = env_num("VH_C15_K").map(|v| v as u32).unwrap_or(a.tier.pick(4, 16));
+    let debug_knobs = env_num("VH_C15_K").is_some() || env_num("VH_C15_E2E_TRY").is_some() || env_num("VH_C15_E2E_N").is_some();
 
     // ---- 1. prove that the environment knobs work
     let shim_log = ctx.work.join("shim.log");
@@ -819,9 +823,12 @@ fn run(a: &vhcore::Args) -> i32 {
     if thorough {
         // e2e packages: deterministic stride over the sorted list, first 20 that build offline
         let cands = e2e_candidates();
-        let want = 20usize;
+        let want = env_num("VH_C15_E2E_N").unwrap_or(20);
         let stride = (cands.len() / 60).max(1);
-        let picked: Vec<PathBuf> = cands.iter().step_by(stride).cloned().collect();
+        let mut picked: Vec<PathBuf> = cands.iter().step_by(stride).cloned().collect();
+        if let Some(t) = env_num("VH_C15_E2E_TRY") {
+            picked.truncate(t);
+        }
         rep.set("e2e_candidates_total", cands.len() as u64);
         rep.set("e2e_candidates_tried", picked.len() as u64);
         let mut e2e: Vec<Pkg> = vec![];
@@ -976,7 +983,10 @@ fn run(a: &vhcore::Args) -> i32 {
             rep.sample(json!({"package": pkgs[*pi].name, "profile": pr, "env": e.json(), "identical_to_reference": artefacts(r.json.as_ref().unwrap()).iter().filter(|(k, _)| k.as_str() != "file:debug_symbols.obj").all(|(k, v)| artefacts(&ref_json[&(pkgs[*pi].name.clone(), pr.to_string())]).get(k) == Some(v))}));
         }
     }
-    rep.set("exhaustive", only.is_none());
+    rep.set("exhaustive", only.is_none() && !debug_knobs);
+    if debug_knobs {
+        rep.cap("VH_C15_K / VH_C15_E2E_TRY / VH_C15_E2E_N debugging knobs were set: reduced space");
+    }
     rep.assume("2^128 hash seeds cannot be enumerated: K forced seeds give K independent iteration orders for every std HashMap/HashSet; hashers that do not draw from the OS (FxHash, ahash's fixed fallback keys mixed with addresses) are covered only by the ASLR on/off dimension");
     rep.assume("the shim replaces getrandom(), getentropy() and syscall(SYS_getrandom) with a pure function of VERIF_SEED (the same bytes on every call, so all threads get the same keys); AT_RANDOM (16 kernel bytes used by glibc for the stack protector) is not controlled");
     rep.assume("the compile path of forc-pkg/sway-core spawns no worker threads and does not use rayon (checked by grep; RAYON_NUM_THREADS is kept as a dimension because indexmap's rayon feature is enabled), so 'thread timing' has nothing to act on in a single build");
